@@ -37,7 +37,8 @@ def _base_shards(tier, seed):
 
 def make_pair(rng, N, kind):
     from scipy.signal import lfilter
-    x = gen.record(rng, N, str(rng.choice(["white", "ar1", "walk", "sine+noise", "offset1e6"])))
+    x = gen.record(rng, N, str(rng.choice(["white", "ar1", "walk", "sine+noise", "offset1e6",
+                                           "int-zero-sum"])))
     s = float(np.std(x)) or 1.0
     if kind == "random":
         y = gen.second_channel(rng, x, str(rng.choice(gen.PAIR_CLASSES)))
